@@ -5,6 +5,7 @@ import itertools
 import random
 
 from . import gen
+from . import wide
 from .gen import SIMPLE, MULTI, WEIGHTED, ALL_CLASSES, KINDS_ALL, KINDS_LAB
 
 Q, T = "quick", "thorough"
@@ -74,6 +75,9 @@ def wl_statemachine(classes, tier, rng, labelled_only=False, exh=True, n_rand=(2
                     for k in range(1, kmax + 1):
                         lim = scale(tier, 1500, 40000) if len(al) ** k > scale(tier, 1500, 40000) else None
                         yield from gen.exhaustive(cls, kind, n, al, k, limit=lim, rng=rng)
+    # wide graphs (hubs, neighbours 8/16/32/64 apart, sizes around 32 and 64)
+    yield from wide.statemachine(classes, scale(tier, 24, 400), rng,
+                                 lambda cls: kinds_for(cls, tier, rng, labelled_only), **kw)
     # random
     total = scale(tier, *n_rand)
     for _ in range(total):
@@ -254,6 +258,8 @@ def huge_weight_family(tier, rng):
 def wl_C06(tier, rng):
     yield from all_pairs_small(tier, rng)
     yield from huge_weight_family(tier, rng)
+    yield from wide.equality(scale(tier, 60, 1200), rng, ALL_CLASSES,
+                             lambda cls: KINDS_ALL if cls in SIMPLE else ["-"])
     for _ in range(scale(tier, 1500, 30000)):
         cls = rng.choice(ALL_CLASSES)
         kind = rng.choice(KINDS_ALL) if cls in SIMPLE else "-"
@@ -307,10 +313,10 @@ def wl_C06(tier, rng):
 
 
 # ------------------------------------------------------------------ C07: invalid calls
-def invalid_calls(cls, kind, n, rng, full=True):
+def invalid_calls(cls, kind, n, rng, full=True, okv=0):
     """every entry point x argument position x bad value x flags (slot 0 has n vertices)"""
     bad = [n, n + 1, 4294967295]
-    ok = [0] if n > 0 else [n]  # when n == 0 every index is bad
+    ok = [okv] if n > 0 else [n]  # when n == 0 every index is bad
     calls = []
 
     def two(fmt, flagsets):
@@ -410,6 +416,17 @@ def forced_label_family():
 def wl_C07(tier, rng):
     for item in forced_label_family():
         yield item
+    # rejected calls on wide graphs, the valid argument being a hub
+    for it in range(scale(tier, 10, 150)):
+        cls = rng.choice(ALL_CLASSES)
+        kind = rng.choice(KINDS_ALL) if cls in SIMPLE else "-"
+        n, es = wide.shape(rng, cls, kind)
+        hub = max(range(n), key=lambda v: sum(1 for e in es if v in e))
+        ops = ["mode quiet"] + wide.build(rng, cls, kind, n, es) + ["dump 0"]
+        calls = invalid_calls(cls, kind, n, rng, full=True, okv=hub) + missing_edge_calls(cls, kind, n, rng)
+        rng.shuffle(calls)
+        ops += calls + ["dump 0"]
+        yield ({"cls": cls, "kind": kind, "n": n, "len": len(ops), "family": "wide"}, ops)
     for it in range(scale(tier, 160, 2500)):
         cls = rng.choice(ALL_CLASSES)
         kind = rng.choice(KINDS_ALL) if cls in SIMPLE else "-"
@@ -460,6 +477,13 @@ def wl_C08(tier, rng):
                         rng.shuffle(order)
                     yield ({"cls": cls, "kind": kind, "n": n, "len": len(order), "exh": True},
                            gen.build_ops(cls, kind, n, order, rng=rng))
+    # wide shapes
+    for _ in range(scale(tier, 24, 400)):
+        cls = rng.choice(ALL_CLASSES)
+        kind = rng.choice(KINDS_ALL) if cls in SIMPLE else "-"
+        n, es = wide.shape(rng, cls, kind)
+        ops = ["mode quiet"] + wide.build(rng, cls, kind, n, es) + ["dump 0"]
+        yield ({"cls": cls, "kind": kind, "n": n, "len": len(ops), "family": "wide"}, ops)
     # random larger shapes with isolated leading / trailing vertices
     for _ in range(scale(tier, 1200, 30000)):
         cls = rng.choice(ALL_CLASSES)
@@ -517,6 +541,16 @@ def wl_C09(tier, rng):
                     es = [p for b, p in enumerate(pairs) if mask >> b & 1]
                     labels = [((3 * i + j) % 5) + 1 for (i, j) in es]
                     yield one(cls, kind, n, es, labels)
+    for _ in range(scale(tier, 20, 300)):
+        cls = rng.choice(ALL_CLASSES)
+        kind = rng.choice(KINDS_ALL) if cls in SIMPLE else "-"
+        n, es = wide.shape(rng, cls, kind)
+        labels = [val_for(rng, cls, kind) if cls not in MULTI else rng.randint(0, 6) for _ in es]
+        meta, ops = one(cls, kind, n, es, labels)
+        meta["family"] = "wide"
+        # quiet while building, explicit dumps of the results
+        ops = ["mode quiet"] + ops + [f"dump {k}" for k in range(10)]
+        yield (meta, ops)
     for _ in range(scale(tier, 1000, 25000)):
         cls = rng.choice(ALL_CLASSES)
         kind = rng.choice(KINDS_ALL) if cls in SIMPLE else "-"
@@ -550,6 +584,16 @@ def wl_C10(tier, rng):
                     es = [p for b, p in enumerate(pairs) if mask >> b & 1]
                     labels = [((3 * i + j) % 5) + 1 for (i, j) in es]
                     yield one(cls, kind, n, es, labels, allS)
+    for _ in range(scale(tier, 24, 400)):
+        cls = rng.choice(SIMPLE)
+        kind = rng.choice(KINDS_ALL)
+        n, es = wide.shape(rng, cls, kind)
+        labels = [gen.label_tok(rng, kind) for _ in es]
+        ops = ["mode quiet"] + gen.build_ops(cls, kind, n, es, labels=labels)
+        for S in wide.subsets(rng, n):
+            sS = " ".join(map(str, S))
+            ops += [("subgraph 0 1 S " + sS).rstrip(), "dump 1", ("subgraphremap 0 2 S " + sS).rstrip(), "dump 2"]
+        yield ({"cls": cls, "kind": kind, "n": n, "len": len(ops), "family": "wide"}, ops)
     for _ in range(scale(tier, 800, 20000)):
         cls = rng.choice(SIMPLE)
         kind = rng.choice(KINDS_ALL)
@@ -567,6 +611,7 @@ def wl_C10(tier, rng):
 
 # ------------------------------------------------------------------ C16: forced duplicates
 def wl_C16(tier, rng):
+    yield from wide.forced(scale(tier, 40, 600), rng)
     # simple / labelled classes: any mix of forced and unforced insertions, removeEdge, dedup
     for cls in SIMPLE:
         for kind in ["none", "int"]:
@@ -693,6 +738,15 @@ def wl_C11(tier, rng):
                 t = rng.randrange(n)
                 ops += [f"geodesic 0 {s} {t}", f"allgeodesics 0 {s} {t}" if n <= 14 else f"geodesic 0 {t} {s}"]
         yield ({"cls": cls, "kind": kind, "n": n, "len": len(ops)}, ops)
+    # wide graphs (hubs; sizes around 32 and 64)
+    for _ in range(scale(tier, 30, 500)):
+        cls = rng.choice(SIMPLE)
+        n, es = wide.shape(rng, cls, "none")
+        ops = ["mode quiet"] + graph_by_ctor(cls, "none", n, es)
+        for s_ in rng.sample(wide.special(n), min(4, len(wide.special(n)))):
+            t = rng.choice(wide.special(n))
+            ops += [f"bfs 0 {s_}", f"allpred 0 {s_}", f"geodesicsfrom 0 {s_}", f"geodesic 0 {s_} {t}", f"allgeodesics 0 {s_} {t}"]
+        yield ({"cls": cls, "kind": "none", "n": n, "len": len(ops), "family": "wide"}, ops)
     # layered graphs (many ties / many shortest paths)
     for width in (2, 3):
         for layers in range(1, scale(tier, 5, 7) if width == 2 else scale(tier, 3, 4)):
@@ -738,6 +792,14 @@ def wl_C12(tier, rng):
         wes = [(i, j, rng.choice([0, 0, rng.randint(0, wmax), rng.randint(0, wmax)])) for (i, j) in es]
         ops = weighted_ops(cls, n, wes) + [f"dijkstra 0 {s}" for s in rng.sample(range(n), min(n, 4))]
         yield ({"cls": cls, "kind": "-", "n": n, "len": len(ops)}, ops)
+    # wide graphs
+    for _ in range(scale(tier, 30, 500)):
+        cls = rng.choice(WEIGHTED)
+        n, es = wide.shape(rng, cls, "-")
+        wmax = rng.choice([1, 4, 16, 40])
+        wes = [(i, j, rng.choice([0, rng.randint(0, wmax), rng.randint(0, wmax)])) for (i, j) in es]
+        ops = weighted_ops(cls, n, wes) + [f"dijkstra 0 {s_}" for s_ in rng.sample(wide.special(n), min(4, len(wide.special(n))))]
+        yield ({"cls": cls, "kind": "-", "n": n, "len": len(ops), "family": "wide"}, ops)
     # zero-weight cycles
     for n in range(2, scale(tier, 8, 16)):
         for cls in WEIGHTED:
@@ -769,6 +831,20 @@ def wl_C19(tier, rng):
                     wes = [(i, j, wt) for (i, j) in es]
                     ops = weighted_ops(cls, n, wes) + ["dijkstra 0 0", f"dijkstra 0 {n-1}"]
                     yield ({"cls": cls, "kind": "-", "n": n, "len": len(ops), "family": "wgrid"}, ops)
+    # wide graphs
+    for _ in range(scale(tier, 20, 300)):
+        if rng.random() < 0.5:
+            cls = rng.choice(SIMPLE)
+            n, es = wide.shape(rng, cls, "none")
+            ops = ["mode quiet"] + graph_by_ctor(cls, "none", n, es)
+            for s_ in rng.sample(wide.special(n), min(4, len(wide.special(n)))):
+                ops += [f"bfs 0 {s_}", f"allpred 0 {s_}"]
+        else:
+            cls = rng.choice(WEIGHTED)
+            n, es = wide.shape(rng, cls, "-")
+            wes = [(i, j, rng.choice([0, 1, 4, rng.randint(0, 20)])) for (i, j) in es]
+            ops = weighted_ops(cls, n, wes) + [f"dijkstra 0 {s_}" for s_ in rng.sample(wide.special(n), min(4, len(wide.special(n))))]
+        yield ({"cls": cls, "kind": "-", "n": n, "len": len(ops), "family": "wide"}, ops)
     # scan counts on all small graphs and random ones (same histories as C11/C12, fewer)
     for cls in SIMPLE:
         und = cls == "und"
@@ -911,6 +987,25 @@ def wl_C13(tier, rng):
         ops = ["mode quiet"] + graph_ops_labelled(cls, kind, n, es, labels)
         ops += [f"roundtriptext 0 1 {kind}", "mode verbose", "dump 1", f"resize 1 {n}", "eq 0 1"]
         yield ({"cls": cls, "kind": kind, "n": n, "len": len(ops)}, ops)
+    # vertex indices of several decimal digits (256, 300, 4660) next to small ones
+    for _ in range(scale(tier, 30, 500)):
+        cls = rng.choice(SIMPLE)
+        kind = rng.choice(TEXT_KINDS)
+        pool = [0, 1, 9, 10, 99, 100, 255, 256, 257, 300, 999, 1000, 4660]
+        n = rng.choice([101, 258, 301, 4661])
+        pool = [v for v in pool if v < n]
+        es = list({(rng.choice(pool), rng.choice(pool)) for _ in range(rng.randint(1, 8))})
+        if cls == "und":
+            es = und_canon(es)
+        rng.shuffle(es)
+        labels = [gen.label_tok(rng, kind) for _ in es]
+        ops = ["mode quiet"] + graph_ops_labelled(cls, kind, n, es, labels)
+        ops += [f"writetext 0 {kind}", f"roundtriptext 0 1 {kind}"]
+        for (i, j) in es:
+            ops += [f"q 1 hasEdge {i} {j}", f"q 1 getEdgeLabel {i} {j} 0", f"q 1 getOutNeighbours {i}"]
+        m = max(max(e) for e in es) + 1
+        ops += [f"q 1 hasEdge {m} 0", f"q 1 hasEdge {m - 1} 0", f"resize 1 {n}", "eq 0 1", "eq 1 0"]
+        yield ({"cls": cls, "kind": kind, "n": n, "len": len(ops), "family": "big-index"}, ops)
     # documented format: comments, horizontal whitespace, names
     for _ in range(scale(tier, 2500, 40000)):
         cls = rng.choice(SIMPLE)
@@ -953,6 +1048,42 @@ def wl_C14(tier, rng):
         recs = [(rng.randint(0, 9), rng.randint(0, 9), bin_label_tok(rng, kind)) for _ in range(rng.randint(0, 8))]
         rng.shuffle(recs)
         yield ({"cls": cls, "kind": kind, "n": 0, "len": 1}, [f"loadbin 0 {cls} {kind} {hexs(bin_file(kind, recs))}", "dump 0"])
+    # multi-byte vertex indices: every byte of the 32-bit little-endian fields carries information
+    for it in range(scale(tier, 40, 600)):
+        cls = rng.choice(SIMPLE)
+        kind = rng.choice(BIN_KINDS)
+        three = (it % 10 == 0)    # a 3-byte index (0x010203): load and point queries only
+        pool = [0, 1, 2, 255, 256, 257, 300, 4660] + ([66051] if three else [])
+        recs = [(rng.choice(pool), rng.choice(pool), bin_label_tok(rng, kind)) for _ in range(rng.randint(1, 6))]
+        if three:
+            recs.append((66051, rng.choice(pool), bin_label_tok(rng, kind)))
+        rng.shuffle(recs)
+        n = max(max(i, j) for (i, j, _) in recs) + 1
+        ops = ["mode quiet", f"loadbin 0 {cls} {kind} {hexs(bin_file(kind, recs))}"]
+        for (i, j, _) in recs:
+            ops += [f"q 0 hasEdge {i} {j}", f"q 0 hasEdge {j} {i}"]
+        ops += [f"q 0 hasEdge {n} 0", f"q 0 hasEdge {n - 1} 0", f"q 0 getOutNeighbours {n - 1}"]
+        if not three:
+            ops += [f"writebin 0 {kind}", f"roundtripbin 0 1 {kind}", "eq 0 1", "eq 1 0"]
+        yield ({"cls": cls, "kind": kind, "n": n, "len": len(ops), "family": "big-index"}, ops)
+    for _ in range(scale(tier, 30, 400)):
+        cls = rng.choice(SIMPLE)
+        kind = rng.choice(BIN_KINDS)
+        pool = [0, 1, 255, 256, 257, 300, 4660]
+        n = rng.choice([258, 301, 4661])
+        pool = [v for v in pool if v < n]
+        es = list({(rng.choice(pool), rng.choice(pool)) for _ in range(rng.randint(1, 8))})
+        if cls == "und":
+            es = und_canon(es)
+        rng.shuffle(es)
+        labels = [bin_label_tok(rng, kind) for _ in es]
+        ops = ["mode quiet"] + graph_ops_labelled(cls, kind, n, es, labels)
+        ops += [f"writebin 0 {kind}", f"roundtripbin 0 1 {kind}"]
+        for (i, j) in es:
+            ops += [f"q 1 hasEdge {i} {j}", f"q 1 getOutNeighbours {i}"]
+        m = max(max(e) for e in es) + 1
+        ops += [f"q 1 hasEdge {m} 0", f"q 1 hasEdge {m - 1} 0", f"resize 1 {n}", "eq 0 1", "eq 1 0"]
+        yield ({"cls": cls, "kind": kind, "n": n, "len": len(ops), "family": "big-index"}, ops)
     # a file that cannot be opened: all six routines
     for cls in SIMPLE:
         for kind in ["none", "int"]:
@@ -1001,6 +1132,16 @@ def wl_C15(tier, rng):
         for cut in range(len(data) + 1):
             ops += [f"loadbin 0 {cls} {kind} {hexs(data[:cut])}", "dump 0"]
         yield ({"cls": cls, "kind": kind, "n": 0, "len": len(ops), "exh": True}, ops)
+    # every cut of files whose indices use two bytes (a cut inside an index leaves a plausible smaller one)
+    for it in range(scale(tier, 6, 120)):
+        cls = rng.choice(SIMPLE)
+        kind = rng.choice(BIN_KINDS)
+        recs = [(rng.choice([1, 255, 256, 257, 300]), rng.choice([0, 2, 256, 258, 299]), bin_label_tok(rng, kind)) for _ in range(rng.randint(1, 2))]
+        data = bin_file(kind, recs)
+        ops = ["mode quiet"]
+        for cut in range(len(data) + 1):
+            ops += [f"loadbin 0 {cls} {kind} {hexs(data[:cut])}", f"writebin 0 {kind}", "q 0 hasEdge 1 0", "q 0 hasEdge 255 2", "q 0 hasEdge 300 0", "q 0 getOutNeighbours 44"]
+        yield ({"cls": cls, "kind": kind, "n": 0, "len": len(ops), "family": "big-index"}, ops)
     # truncated text files (every cut of a small file)
     for it in range(scale(tier, 60, 1200)):
         cls = rng.choice(SIMPLE)
